@@ -2939,6 +2939,9 @@ class Transport(threading.Thread, ClosingContextManager):
         self.server_extensions = extensions
 
     def _parse_newkeys(self, m):
+        if self.K is None or self.H is None:
+            # no key exchange produced anything to switch to
+            raise SSHException("Received NEWKEYS outside of a key exchange")
         self._log(DEBUG, "Switch to new keys ...")
         self._activate_inbound()
         # can also free a bunch of stuff here
